@@ -1,7 +1,7 @@
 """C18 -- save/load round-trips a tensor's data, dtype and gradient.
 Theorems: coq/Props/C18.v over Model/IO.v (load = tensor(data) then backward(grad) on the fresh leaf, on top of the history model).
 Tie: the complete product dtype x shape {0-d, empty, 1-d, 3-d} x kind {leaf, view with a view-gradient, intermediate with a live graph,
-constant copy carrying a gradient} x constant flag x gradient presence x transport {str path, Path, BytesIO, file handle} is run on
+constant copy carrying a gradient} x constant flag x gradient presence x transport {str path, Path, BytesIO, file handle, names without ".npz" / with other dots next to a sibling name} is run on
 /repo: loaded data/dtype/shape/gradient equal the saved ones, saving alters nothing (data, gradient, creator, consumers, flags)."""
 import itertools
 import json
@@ -21,6 +21,9 @@ def run(rep, work, tier, seed, props, replay=None):
                 tasks.append({"dtype": dt, "shape": shape, "kind": kind, "via": via, "grad": grad, "constant": constant})
     for shape, via in itertools.product([[], [3], [2, 3]], ["str", "bytesio"]):
         tasks.append({"dtype": "float64", "shape": shape, "kind": "const_copy_with_grad", "via": via, "grad": True, "constant": None})
+    for dt, shape, kind, via in itertools.product(["float64", "float32", "int64"], [[], [3], [2, 1, 3]], ["leaf", "view"], ["str_noext", "str_dotted", "path_dotted"]):
+        for grad in (True, False):
+            tasks.append({"dtype": dt, "shape": shape, "kind": kind, "via": via, "grad": grad, "constant": None})
     # archives not written by mygrad.save: load == tensor(data) then backward(grad), so the stored gradient is cast / broadcast / refused like any seed
     for dt, shape in (("float64", [2, 3]), ("float32", [6]), ("float64", [])):
         n = 6 if shape else 1
